@@ -50,6 +50,11 @@ type Prog struct {
 	initial []*packages.Package
 
 	neverNilFn map[*Func]bool
+	helperOf   map[*Func]*helperSite
+	wrapCache  map[*Func][]ast.Expr
+	alias      map[*types.Func]string // renamed unexported functions: object -> baseline canonical name
+	renamed    map[string]string      // baseline name -> current name
+	inWalk     map[*Func]bool
 	holdsState *State // state of the Holds query in progress (for pruning join alternatives)
 }
 
@@ -204,6 +209,7 @@ func loadProg(dir string) (*Prog, error) {
 		}
 		ast.Inspect(fn.Decl.Body, visit)
 	}
+	p.resolveRenames()
 	return p, nil
 }
 
@@ -229,6 +235,9 @@ func (p *Prog) FuncName(fn *types.Func) string {
 		return ""
 	}
 	fn = fn.Origin()
+	if a, ok := p.alias[fn]; ok {
+		return a
+	}
 	pkg := ""
 	if fn.Pkg() != nil {
 		pkg = p.PkgShort(fn.Pkg().Path())
